@@ -420,7 +420,8 @@ func (g *gen) batchableCmd() []string {
 		case 2:
 			return []string{"setex", k, "-1", g.val()}
 		case 3:
-			return []string{"setex", k, "99999999999", g.val()}
+			// beyond the uint32 expire time; "100 years" overflows only together with the entry's timestamp
+			return []string{"setex", k, g.pick([]string{"99999999999", "3153600000", "4294967293"}), g.val()}
 		default:
 			return []string{"set", "t:" + strings.Repeat("K", 10240), g.val()}
 		}
